@@ -2,6 +2,8 @@ package main
 
 import (
 	"fmt"
+	"hash/crc32"
+	"os"
 	"sync/atomic"
 	"syscall"
 
@@ -183,12 +185,16 @@ func checkC08(tier, replay string) int {
 	ctx.Cov["transitions"] = events
 	ctx.Cov["traces_validated_against_impl"] = events
 	ctx.Cov["child_processes"] = children
+	ctx.Cov["same_filter_loaded_on_two_threads"] = atomic.LoadInt64(&c08Twice)
+	ctx.Cov["loads_after_a_foreign_load_on_another_thread"] = atomic.LoadInt64(&c08Pre)
 	ctx.Cov["kill_process_events_observed_as_SIGSYS"] = kills
 	ctx.Cov["policies_loaded"] = len(jobs)
-	ctx.Cov["rule"] = "states = policies of probe scope S8 over {getpgrp,getppid,getuid,geteuid,getgid,getegid} (names-only with 1-2 groups and 4 actions; single conditions over 8 ops x 6 argument registers x boundary operands; AND lists, OR lists, conditional entries in two groups, kill_process behind a condition; with and without the whole remaining table as a >255-instruction allow group), each loaded by the real LoadFilter in a fresh child with flags in {0,tsync} and no_new_privs on/off, as root and as uid 65534, about half of the loads with a policy value that was assembled and dumped in an earlier shape (one group less, another default action) before being completed; transitions = probe events: every probe syscall x every cell of the exact partition of the argument registers, issued with RawSyscall6 from the loading thread and from a second thread; the reference decision (model) is compared with errno / SIGSYS observed on the real kernel, and the sock_fprog captured at the seam hook with the program compiled in the parent"
+	ctx.Cov["rule"] = "states = policies of probe scope S8 over {getpgrp,getppid,getuid,geteuid,getgid,getegid} (names-only with 1-2 groups and 4 actions; single conditions over 8 ops x 6 argument registers x boundary operands; AND lists, OR lists, conditional entries in two groups, kill_process behind a condition; with and without the whole remaining table as a >255-instruction allow group), each loaded by the real LoadFilter in a fresh child with flags in {0,tsync} and no_new_privs on/off, as root and as uid 65534, about half of the loads with a policy value that was assembled and dumped in an earlier shape (one group less, another default action) before being completed, a third after another thread has loaded a longer unrelated filter, a third followed by a load of the same filter on the second thread (which then must be filtered too); transitions = probe events: every probe syscall x every cell of the exact partition of the argument registers, issued with RawSyscall6 from the loading thread and from a second thread; the reference decision (model) is compared with errno / SIGSYS observed on the real kernel, and the sock_fprog captured at the seam hook with the program compiled in the parent"
 	ctx.Assumptions = []string{"probe syscalls ignore their arguments and always succeed when allowed", "refsem.Decide is the model; the kernel is the implementation", "only host architecture (x86_64) events can be issued"}
 	return ctx.Finish()
 }
+
+var c08Pre, c08Twice int64
 
 func c08One(ctx *evid.Ctx, a *refsem.Arch, j c08Job, maxKill int, children, events, kills *int64) {
 	pj := engine.ToJSON(a, j.pol, false)
@@ -230,8 +236,28 @@ func c08One(ctx *evid.Ctx, a *refsem.Arch, j c08Job, maxKill int, children, even
 		}
 	}
 	for run := 0; run < nruns; run++ {
-		sc := &histScript{Threads: 2}
+		sc := &histScript{Threads: 3}
+		// in a third of the runs another thread of the process has loaded a longer, unrelated filter before (no thread-sync):
+		// nothing of that earlier load may end up in what is handed to the kernel now
+		pre := 0
+		if (int(crc32.ChecksumIEEE([]byte(fmt.Sprint(pj))))+run)%3 == 0 && !j.unpriv && j.flags&1 == 0 { // (with thread-sync the kernel would rightly refuse: that thread's filter has diverged)
+			g := seccomp.SyscallGroup{Action: seccomp.ActionErrno}
+			for l := 0; l < 260; l++ {
+				g.NamesWithCondtions = append(g.NamesWithCondtions, seccomp.NameWithConditions{Name: "getsid", Conditions: seccomp.ArgumentConditions{{Argument: 0, Operation: seccomp.Equal, Value: uint64(l) + 1<<40}}})
+			}
+			prej := engine.ToJSON(a, &seccomp.Policy{DefaultAction: seccomp.ActionAllow, Syscalls: []seccomp.SyscallGroup{g}}, false)
+			sc.Ops = append(sc.Ops, histOp{Op: "load", T: 2, Policy: &prej, Flags: 0, NNP: true})
+			pre = 1
+			atomic.AddInt64(&c08Pre, 1)
+		}
 		sc.Ops = append(sc.Ops, histOp{Op: "load", T: 0, Policy: &pj, Flags: j.flags, NNP: j.nnp, Staged: len(j.label)%2 == 0 || run%2 == 1})
+		// in another third the second thread loads the very same filter value afterwards (no thread-sync): it must be installed
+		// there as well, an equal filter loaded elsewhere in the process is no reason to skip it
+		twice := (int(crc32.ChecksumIEEE([]byte(fmt.Sprint(pj))))+run)%3 == 1 && !j.unpriv && j.flags&1 == 0
+		if twice {
+			sc.Ops = append(sc.Ops, histOp{Op: "load", T: 1, Policy: &pj, Flags: j.flags, NNP: j.nnp})
+			atomic.AddInt64(&c08Twice, 1)
+		}
 		sc.Ops = append(sc.Ops, histOp{Op: "state"})
 		sc.Ops = append(sc.Ops, histOp{Op: "probe", T: 1, Events: toProbe(normal, false)})
 		evT0 := toProbe(normal, false)
@@ -242,13 +268,22 @@ func c08One(ctx *evid.Ctx, a *refsem.Arch, j c08Job, maxKill int, children, even
 		sc.Ops = append(sc.Ops, histOp{Op: "probe", T: 0, Events: evT0})
 		hr := runHist(sc, j.unpriv)
 		atomic.AddInt64(children, 1)
-		if hr.TimedOut || len(hr.Results) < 3 {
+		if pre == 1 && len(hr.Results) > 0 {
+			if hr.Results[0].Err != nil {
+				ctx.Capped("the preliminary load on another thread failed: " + *hr.Results[0].Err)
+			}
+			hr.Results = hr.Results[1:]
+		}
+		if hr.TimedOut || len(hr.Results) < 3 || (twice && len(hr.Results) < 4 && hr.Results[0].Err == nil) {
 			ctx.Flaky()
 			ctx.Capped("a C08 child did not complete")
 			fmt.Printf("HARNESS-ERROR C08 child incomplete: %d results exit=%d sig=%v %.200s\n", len(hr.Results), hr.ExitCode, hr.Signal, hr.Stderr)
 			return
 		}
 		ld := hr.Results[0]
+		if pre == 1 && os.Getenv("DBG08") != "" {
+			fmt.Printf("DBG pre: seam=%+v len(prog)=%d err=%v\n", ld.Seam, len(prog), ld.Err)
+		}
 		if ld.Err != nil && j.unpriv && !j.nnp {
 			return // expected refusal (EACCES); whether it is reported properly is C09/C11's business
 		}
@@ -258,6 +293,21 @@ func c08One(ctx *evid.Ctx, a *refsem.Arch, j c08Job, maxKill int, children, even
 		}
 		if len(ld.Seam) != 1 || ld.Seam[0].Len != len(prog) || ld.Seam[0].Hash != hashInsns(prog) {
 			ctx.Violation("C08:installed-differs:"+j.label, fmt.Sprintf("program handed to seccomp(2) (len/hash %v) is not the compiled one (len %d hash %s)", ld.Seam, len(prog), hashInsns(prog)), rep)
+		}
+		if twice {
+			l2 := hr.Results[1]
+			hr.Results = append(hr.Results[:1:1], hr.Results[2:]...)
+			if l2.Err != nil {
+				ctx.Violation("C08:second-load-failed:"+j.label, "LoadFilter of the same filter on a second thread failed: "+*l2.Err, rep)
+				return
+			}
+			if len(l2.Seam) != 1 || l2.Seam[0].Len != len(prog) || l2.Seam[0].Hash != hashInsns(prog) {
+				ctx.Violation("C08:installed-differs:second-load:"+j.label, fmt.Sprintf("program handed to seccomp(2) by the second thread's load (len/hash %v) is not the compiled one (len %d hash %s)", l2.Seam, len(prog), hashInsns(prog)), rep)
+			}
+			if len(hr.Results) < 3 {
+				ctx.Violation("C08:second-thread-died:"+j.label, "child ended after the second load", rep)
+				return
+			}
 		}
 		if len(ld.Seam) == 1 && ld.Seam[0].Flags != uint64(j.flags) {
 			ctx.Violation("C08:flags-differ:"+j.label, fmt.Sprintf("flags at the seam %#x, requested %#x", ld.Seam[0].Flags, j.flags), rep)
@@ -286,7 +336,7 @@ func c08One(ctx *evid.Ctx, a *refsem.Arch, j c08Job, maxKill int, children, even
 			ctx.Violation("C08:second-thread-died:"+j.label, "second thread did not complete its probes", rep)
 			return
 		}
-		check(t1, toProbe(normal, false), j.flags&1 != 0, "second-thread")
+		check(t1, toProbe(normal, false), j.flags&1 != 0 || twice, "second-thread")
 		// loading thread
 		var t0 *histResult
 		killAnnounced := -1
